@@ -28,6 +28,7 @@ class LoopFrame(StackFrame):
     def __init__(self, parent):
         super().__init__(parent)
         self.params = parent.params
+        self.eval_depth = None
         self._loop_var = {}
 
     def get_loop_var(self, index):
@@ -108,12 +109,21 @@ class CallStack:
     def pop_frame(self) -> None:
         self._top = self._top.parent
 
-    def enter_loop(self) -> None:
+    def enter_loop(self, eval_depth=None) -> None:
         self._top = LoopFrame(self._top)
+        self._top.eval_depth = eval_depth
 
-    def exit_loop(self) -> None:
+    def exit_loop(self):
+        # Returns the depth the evaluation stack had when the loop was entered.
+        eval_depth = self._top.eval_depth
         self._top = self._top.parent
+        return eval_depth
 
-    def unwind_loops(self) -> None:
+    def unwind_loops(self):
+        # Returns the evaluation stack depth of the outermost loop that got
+        # unwound, or None if no loop was active.
+        eval_depth = None
         while isinstance(self._top, LoopFrame):
+            eval_depth = self._top.eval_depth
             self._top = self._top.parent
+        return eval_depth
